@@ -26,8 +26,8 @@ def work(job):
     def alarm(*a):
         raise TimeoutError('timeout')
     signal.signal(signal.SIGALRM, alarm)
-    signal.alarm(120)
     try:
+        signal.alarm(120)
         with contextlib.redirect_stdout(io.StringIO()):
             text = open(path).read()
             ctx = proof_rec.bind_var(smt2)
